@@ -20,9 +20,9 @@ pub fn spec() -> Spec {
     Spec {
         prop: "C20",
         level: "exploration",
-        rule: "Expected-outcome table: the public start() succeeds on a directory iff network string, trace flag, protocol version and database version recorded at creation equal the reopening ones. Enumerated: every ordered pair over networks {mainnet, bitcoin, signet, testnet, testnet4, regtest, unknown} x trace {on, off} (196 pairs; fresh and populated directories), tamper cases produced by editing the config RocksDB directly (each of the four records deleted or altered, whole config table removed, a control rewrite with equal values), and foreign directories (stray file, stray sub-directory, only another table, empty, not yet existing, a file). On success Obs over HTTP must equal the one taken before the stop. Each start() runs in the worker process on a loopback port. Non-trivial = case whose expected outcome is 'refuse'; distinct by (case kind, creating config, reopening config).",
+        rule: "Expected-outcome table (the configuration-pair table is enumerated completely; tamper values and life-cycle chains are samples): the public start() succeeds on a directory iff network string, trace flag, protocol version and database version recorded at creation equal the reopening ones. Enumerated: every ordered pair over networks {mainnet, bitcoin, signet, testnet, testnet4, regtest, unknown} x trace {on, off} (196 pairs; fresh and populated directories), seeded life-cycle chains (create, then 3-6 reopenings under the same or another configuration with growth in between; a refused start must leave the four records untouched), tamper cases produced by editing the config RocksDB directly (each of the four records deleted, altered or replaced by one of 16 near misses of the recorded value - case, truncation, padding, +-1, leading zero/sign, negation -, whole config table removed, a control rewrite with equal values), and foreign directories (stray file, stray sub-directory, only another table, empty, not yet existing, a file). On success Obs over HTTP must equal the one taken before the stop. Each start() runs in the worker process on a loopback port. Non-trivial = case whose expected outcome is 'refuse'; distinct by (case kind, creating config, reopening config).",
         assumptions: vec!["version mismatches are produced by editing the recorded versions, since one build has one protocol/db version".into()],
-        exhaustive: true,
+        exhaustive: false,
         min_nontrivial: 2,
     }
 }
@@ -121,6 +121,51 @@ fn read_config(dir: &Path, key: &str) -> Option<String> {
     String::from_utf8(v[4..].to_vec()).ok()
 }
 
+const NEAR: [&str; 16] = ["upper", "capital", "drop-last", "drop-first", "trail-space", "lead-space", "trail-nl", "trail-nul", "plus-one", "minus-one", "lead-zero", "plus-sign", "dot-zero", "empty", "negated", "numeric-bool"];
+
+/// A value close to the recorded one; None when the variant does not differ from it.
+fn near_variant(orig: &str, name: &str) -> Option<String> {
+    let num = orig.parse::<i64>().ok();
+    let v = match name {
+        "upper" => orig.to_uppercase(),
+        "capital" => {
+            let mut c = orig.chars();
+            match c.next() {
+                Some(f) => f.to_uppercase().collect::<String>() + c.as_str(),
+                None => String::new(),
+            }
+        }
+        "drop-last" => orig[..orig.len().saturating_sub(1)].to_string(),
+        "drop-first" => orig.chars().skip(1).collect(),
+        "trail-space" => format!("{} ", orig),
+        "lead-space" => format!(" {}", orig),
+        "trail-nl" => format!("{}\n", orig),
+        "trail-nul" => format!("{}\0", orig),
+        "plus-one" => (num? + 1).to_string(),
+        "minus-one" => (num? - 1).to_string(),
+        "lead-zero" => format!("0{}", num?),
+        "plus-sign" => format!("+{}", num?),
+        "dot-zero" => format!("{}.0", num?),
+        "empty" => String::new(),
+        "negated" => match orig {
+            "true" => "false".into(),
+            "false" => "true".into(),
+            _ => return None,
+        },
+        "numeric-bool" => match orig {
+            "true" => "1".into(),
+            "false" => "0".into(),
+            _ => return None,
+        },
+        _ => return None,
+    };
+    if v == orig {
+        None
+    } else {
+        Some(v)
+    }
+}
+
 struct Case {
     kind: String,
     create: (usize, bool),
@@ -156,6 +201,12 @@ fn all_cases() -> Vec<Case> {
             v.push(Case { kind: format!("tamper-alter-higher:{}", k), create: (5, false), reopen: (5, false), populated, tamper: Some((k.to_string(), Some(match *k { "DB_VERSION" => "8", "PROTOCOL_VERSION" => "3", "BITCOIN_RPC_NETWORK" => "regtest ", _ => "" }.to_string()))), expect_start: false });
         }
         v.push(Case { kind: format!("control-rewrite-same:{}", k), create: (2, true), reopen: (2, true), populated: true, tamper: Some((k.to_string(), Some("<same>".into()))), expect_start: true });
+    }
+    // near misses of the recorded value, derived from the value actually recorded
+    for k in keys.iter() {
+        for nm in NEAR {
+            v.push(Case { kind: format!("tamper-near:{}:{}", k, nm), create: (3, false), reopen: (3, false), populated: false, tamper: Some((k.to_string(), Some(format!("<near:{}>", nm)))), expect_start: false });
+        }
     }
     for kind in ["foreign-stray-file", "foreign-stray-dir", "foreign-other-table-only", "foreign-config-table-removed", "fresh-empty-dir", "fresh-missing-dir", "path-is-a-file"] {
         v.push(Case { kind: kind.into(), create: (2, true), reopen: (2, true), populated: false, tamper: None, expect_start: kind.starts_with("fresh") });
@@ -222,6 +273,17 @@ fn run_case(ctx: &WorkerCtx, rep: &mut WorkerReport, c: &Case, btc: &str) {
     if let Some((k, v)) = &c.tamper {
         let newv = match v.as_deref() {
             Some("<same>") => read_config(&dir, k),
+            Some(n) if n.starts_with("<near:") => {
+                let name = &n[6..n.len() - 1];
+                match read_config(&dir, k).and_then(|orig| near_variant(&orig, name)) {
+                    Some(x) => Some(x),
+                    None => {
+                        // variant not applicable to this record (e.g. +1 of a string)
+                        rpc::remove_dir(&base);
+                        return;
+                    }
+                }
+            }
             other => other.map(|s| s.to_string()),
         };
         if let Err(e) = edit_config(&dir, k, newv.as_deref()) {
@@ -271,6 +333,104 @@ fn run_case(ctx: &WorkerCtx, rep: &mut WorkerReport, c: &Case, btc: &str) {
     rpc::remove_dir(&base);
 }
 
+const KEYS: [&str; 4] = ["DB_VERSION", "PROTOCOL_VERSION", "BITCOIN_RPC_NETWORK", "EVM_RECORD_TRACES"];
+
+fn config_rows(dir: &Path) -> Vec<Option<String>> {
+    KEYS.iter().map(|k| read_config(dir, k)).collect()
+}
+
+/// A directory's whole life: created and populated under A, then reopened several times under A
+/// or under another configuration. A refused start must leave the records as they were (so that a
+/// later identical start still succeeds), an accepted one must serve the state of the last stop.
+fn run_chain(ctx: &WorkerCtx, rep: &mut WorkerReport, cseed: u64, btc: &str) {
+    let mut rng = crate::rng::Rng::new(cseed);
+    let base = rpc::fresh_dir("C20");
+    let dir: PathBuf = base.join("db");
+    let a = (rng.below(NETWORKS.len() as u64) as usize, rng.chance(1, 2));
+    let (o, s) = try_start(NETWORKS[a.0], a.1, &dir, btc);
+    let Some(s) = s else {
+        rep.inconclusive(format!("chain {:#x}: creating the database failed: {:?}", cseed, o));
+        rpc::remove_dir(&base);
+        return;
+    };
+    let mut u = populate(&s, &dir);
+    let mut before = observe_http(&s, &dir, &u);
+    stop(s);
+    let steps = 3 + rng.below(4);
+    let mut trail: Vec<String> = vec![format!("create({},{})", NETWORKS[a.0], a.1)];
+    for step in 0..steps {
+        let same = rng.chance(1, 2);
+        let b = if same {
+            a
+        } else {
+            loop {
+                // a change of one coordinate is the most likely slip
+                let c = match rng.below(3) {
+                    0 => (a.0, !a.1),
+                    1 => (rng.below(NETWORKS.len() as u64) as usize, a.1),
+                    _ => (rng.below(NETWORKS.len() as u64) as usize, rng.chance(1, 2)),
+                };
+                if c != a {
+                    break c;
+                }
+            }
+        };
+        trail.push(format!("reopen({},{})", NETWORKS[b.0], b.1));
+        let rows_before = config_rows(&dir);
+        let (o, s) = try_start(NETWORKS[b.0], b.1, &dir, btc);
+        rep.evaluations += 1;
+        rep.count("cases:chain-step", 1);
+        let label = format!("chain {:#x} step {}: {}", cseed, step, trail.join(" -> "));
+        match (&o, same) {
+            (Outcome::Started, false) => {
+                violation(rep, "C20", ctx.seed, "started-under-other-config:chain", format!("{}: start() succeeded under a configuration other than the creating one", label), json!({"trail": trail}));
+            }
+            (Outcome::ConfigRefused(_), false) => {
+                rep.nontrivial(format!("chain:{}:{}:{}:{}:after-{}", NETWORKS[a.0], a.1, NETWORKS[b.0], b.1, step));
+                let rows_after = config_rows(&dir);
+                if rows_after != rows_before {
+                    violation(rep, "C20", ctx.seed, "refused-start-changed-records", format!("{}: the refused start changed the recorded configuration {:?} -> {:?}", label, rows_before, rows_after), json!({"trail": trail}));
+                }
+            }
+            (Outcome::OtherError(m), false) => {
+                rep.inconclusive(format!("{}: {}", label, m));
+            }
+            (Outcome::ConfigRefused(m), true) | (Outcome::OtherError(m), true) => {
+                if matches!(o, Outcome::OtherError(_)) && (m.to_lowercase().contains("lock") || m.contains("Address already in use")) {
+                    rep.inconclusive(format!("{}: {}", label, m));
+                } else {
+                    violation(rep, "C20", ctx.seed, "identical-config-refused", format!("{}: start() under the identical configuration failed: {}", label, m), json!({"trail": trail}));
+                }
+            }
+            (Outcome::Started, true) => {
+                let sv = s.as_ref().unwrap();
+                let oa = observe_http(sv, &dir, &u);
+                let d = before.diff(&oa);
+                if !d.is_empty() {
+                    violation(rep, "C20", ctx.seed, &format!("reopened-state-differs:{}", obs_diff_sig(&d)), format!("{}: after reopening under the identical configuration {} queries answer differently", label, d.len()), json!({"trail": trail, "differences(before vs after)": obs::diff_summary(&d, 8)}));
+                }
+                rep.count("reopened_obs_entries_compared", oa.len() as u64);
+                if rng.chance(1, 2) {
+                    // the directory keeps living: one more committed block
+                    let mut i = Inst::over_http(&dir, &sv.addr, vec![]);
+                    i.call("brc20_mine", json!({"block_count": 1, "timestamp": 10 + step}));
+                    i.call("brc20_commitToDatabase", json!([]));
+                    u.max_height += 1;
+                    before = observe_http(sv, &dir, &u);
+                    trail.push("mine+commit".into());
+                }
+            }
+        }
+        if let Some(s) = s {
+            stop(s);
+        }
+        if rep.violations.len() > 3 {
+            break;
+        }
+    }
+    rpc::remove_dir(&base);
+}
+
 pub fn worker(ctx: &WorkerCtx) -> WorkerReport {
     rpc::install_panic_hook();
     let btc = crate::fakebtc::start("regtest");
@@ -283,6 +443,10 @@ pub fn worker(ctx: &WorkerCtx) -> WorkerReport {
         if i as u64 % ctx.nshards == ctx.shard {
             run_case(ctx, &mut rep, c, &btc);
         }
+    }
+    let chains = if ctx.thorough() { 12 } else { 1 };
+    for c in 0..chains {
+        run_chain(ctx, &mut rep, ctx.seed.wrapping_mul(0x9e3779b97f4a7c15) ^ (ctx.shard << 20) ^ c, &btc);
     }
     rep
 }
